@@ -58,6 +58,10 @@ CLAIMS = {
         text='Bounded symbolic model checking of add_var/declare (symbolic level) and undeclare_vars (every subset) from an arbitrary valid state: order views stay one bijection, refusals leave everything intact, all functions unchanged by name, manager canonical.',
         note='undeclare_vars runs through the literal-lifting loader (dict comprehensions -> symbolic-key dicts), validated by concrete replay on the unlifted module. One known finding (add_var with a gap level).',
         ref='DESIGN.md section 8 C14'),
+    'C16': dict(
+        text='Bounded symbolic model checking of dddmp.load: real header parse of concrete header variants (varinfo 0/1/3, gaps, orderedvarnames), then the real _add_node/load/find_or_add on symbolic node rows (any numbering with children before parents, symbolic children, complement marks, 1-2 roots); z3 proves every element of roots denotes the file\'s root entry by name.',
+        note='Cut at the row level: line.split/int() of node lines is replaced by a loop feeding _add_node (text cannot be symbolic); module run through the literal-lifting loader; every model is replayed with a real file on the unlifted module.',
+        ref='DESIGN.md section 8 C16'),
     'C10': dict(
         text='Bounded symbolic model checking of support/is_essential/count/pick_iter/pick (no stubs, read-only) against bit-vector dependence, popcount and cube-cover oracles for every valid manager and operand within the bounds.',
         note='_assert_int (a Python-type assertion) replaced by identity; levels are concretised by the set/dict lookups of the real code, children and signs stay symbolic.',
